@@ -212,7 +212,7 @@ func checkCmd(args []string) int {
 			fmt.Fprintln(os.Stderr, err)
 		}
 		v.Replayed = "no-driver"
-		if !*noReplay && v.Status == "sat" {
+		if !*noReplay && (v.Status == "sat" || len(v.Model) > 0) {
 			runReplay(*repo, v)
 			v.WriteReplay(replayDir)
 		}
